@@ -208,6 +208,12 @@ func checkC11(c *Ctx) {
 	}
 	r.Rule("R11i", "a body that cannot be decoded is answered with the structured 400 whatever bytes it contains (shared with C10/R10j: the decoder's error text is sanitised before it becomes a proto3 string)", 1)
 	decodeErrorTextSanitised(c, "R11i")
+	r.Rule("R11j", "a URL value that cannot be converted is answered with the structured 400 whatever bytes it decodes to: the binders put the raw value into the violation text only under %q (shared with C02/R02q)", 2)
+	if ep, err := c.ServerRuntime(); err == nil {
+		urlValueNotEchoed(c, ep, "R11j")
+	} else {
+		r.Unres("R11j", "emitted server runtime", "", err.Error())
+	}
 	// ---- R11g / R11h on every emitted Go unit variant
 	r.Rule("R11g", "emitted decoders parse the whole input: no json.NewDecoder(...).Decode, which stops after the first JSON value and lets trailing bytes pass (json.Unmarshal rejects them)", 1)
 	r.Rule("R11h", "every request the emitted Go client sends is created with the caller's context (http.NewRequestWithContext): a peer that never completes its answer cannot hold the caller beyond its deadline", 1)
